@@ -132,4 +132,30 @@ inductive LabelPart where
   | lit (s : String)
   deriving DecidableEq, Repr
 
+/-- The container `_map` keeps column positions in (`group_column_indicies = array.array("i", …)`,
+`collect_column_indicies = […]`, group_by.py:88-95).  Iterating any of them hands back the integers put in; what
+differs is WHICH integers can be put in: outside the range the constructor raises (`ValueError: bytes must be in
+range(0, 256)`, `OverflowError: signed short integer is greater than maximum`) before a row is read. -/
+inductive PosContainer where
+  /-- a list or a tuple (a list comprehension, `list(…)`, `tuple(…)`): every integer -/
+  | list
+  /-- `bytes(…)` / `bytearray(…)`: `0 ≤ p < 256` -/
+  | bytes
+  /-- `array.array(code, …)` with an integer type code of `bits` bits (`b B h H i I l L q Q`), signed or not -/
+  | array (bits : Nat) (signed : Bool)
+  deriving DecidableEq, Repr
+
+/-- The integers the container can hold. -/
+def PosContainer.holds : PosContainer → Int → Bool
+  | .list, _ => true
+  | .bytes, p => decide (0 ≤ p ∧ p < 256)
+  | .array bits true, p => decide (-(2 ^ (bits - 1) : Int) ≤ p ∧ p < 2 ^ (bits - 1))
+  | .array bits false, p => decide (0 ≤ p ∧ p < 2 ^ bits)
+
+/-- Building the container from the positions found (`container(source_columns.index(t) for t in names)`): the
+positions themselves, or the exception the constructor raises at the first one it cannot hold. -/
+def PosContainer.store (c : PosContainer) (ps : List Int) : Except String (List Int) :=
+  if ps.all c.holds then .ok ps
+  else .error (match c with | .bytes => "ValueError" | _ => "OverflowError")
+
 end GroupByIR
